@@ -349,6 +349,16 @@ Theorem C14_d14_blocked_delete_refuted :
 Proof. exact d14_blocked_delete_refuted. Qed.
 Print Assumptions C14_d14_blocked_delete_refuted.
 
+(* D15: the object of a HyperNode listed by two HyperNodes arrives last; only one claimer's
+   chain was rebuilt and the double claim could end reported as repaired *)
+Theorem C14_d15_arrival_under_two_claimers_refuted :
+  let e := mkEnv [] [] in
+  let evs := [EUpd (mkObj 3 2 [MHyper 1]); EDel 1; EUpd (mkObj 2 1 [MHyper 1]); EUpd (mkObj 1 0 [])]%positive in
+  bad_membership [mkObj 1 0 []; mkObj 2 1 [MHyper 1]; mkObj 3 2 [MHyper 1]]%positive = true /\
+  s_ready (snd (run_round9 e evs)) = true /\ s_ready (snd (run e evs)) = false.
+Proof. exact d15_arrival_under_two_claimers_refuted. Qed.
+Print Assumptions C14_d15_arrival_under_two_claimers_refuted.
+
 (* --- still refuted at full strength on the repaired code (known finding D7): a cycle between
    two HyperNodes of the same tier stays unreported --- *)
 Theorem C14_bad_membership_not_ready_refuted : exists evs,
